@@ -37,6 +37,10 @@ FILES = {
     "src/lp/msg.h": ["C01", "C10"],
 }
 
+for _f in FILES:  # memory safety is the last resort for every file: a mutant often just crashes
+    if "C11" not in FILES[_f]:
+        FILES[_f].append("C11")
+
 REL = {"<=": "<", "<": "<=", ">=": ">", ">": ">=", "==": "!=", "!=": "=="}
 
 
